@@ -40,7 +40,7 @@ Definition agree13 (c : case13) : bool :=
       | _ => false
       end
   | A_write doc after cls ns =>
-      match write_clear (fun s => str_in s ns) doc with
+      match write_clear doc with
       | Ok n => oclass_eqb13 cls COk && node_eqb n after
       | r => oclass_eqb13 cls (class_of r)
       end
